@@ -51,7 +51,7 @@ def slices(tier):
 # (B) forms
 # ---------------------------------------------------------------------------------------------
 
-FORM_OPS_QUICK = ["derivative", "adjoint", "action", "lhs", "rhs", "functional", "replace", "neg", "scale", "expand_derivatives", "lower", "renumber", "scaling", "restrictions", "signature", "hash", "repr", "form_data", "form_data_opts", "estimate_degree", "add", "sub", "eq", "equals"]
+FORM_OPS_QUICK = ["derivative", "adjoint", "action", "lhs", "rhs", "functional", "replace", "neg", "scale", "expand_derivatives", "lower", "renumber", "scaling", "restrictions", "remeasure", "signature", "hash", "repr", "form_data", "form_data_opts", "estimate_degree", "add", "sub", "eq", "equals"]
 
 
 class FormWorld:
@@ -140,6 +140,11 @@ class FormWorld:
             return apply_integral_scaling(apply_algebra_lowering(x))
         if op == "restrictions":
             return apply_restrictions(apply_algebra_lowering(x))
+        if op == "remeasure":
+            # reconfigured measures that are handed the user's own metadata dicts together with degree= / scheme=
+            itg = x.integrals()[0]
+            m = ufl.Measure(itg.integral_type())
+            return x + itg.integrand() * m(metadata=self.md[0], degree=1) + itg.integrand() * m(7, metadata=self.md[1], scheme="vertex")
         if op == "signature":
             return x.signature()
         if op == "hash":
